@@ -218,8 +218,10 @@ fn parse(text: &str, allow_substvar: bool) -> Parse {
 
                 if self.current() == Some(IDENT) {
                     self.bump();
-                    // A version with an epoch ("1:2.0") is lexed as IDENT COLON IDENT.
-                    if self.current() == Some(COLON) {
+                    // A version with an epoch is lexed as IDENT (COLON IDENT)*: "1:2.0" is
+                    // IDENT COLON IDENT; the upstream version may itself contain colons when
+                    // there is an epoch (Debian Policy 5.6.12), so "1:2:3" is epoch 1, upstream "2:3".
+                    while self.current() == Some(COLON) {
                         self.bump();
                         if self.current() == Some(IDENT) {
                             self.bump();
@@ -1064,17 +1066,20 @@ fn detached(children: Vec<NodeOrToken<GreenNode, GreenToken>>) -> Vec<SyntaxElem
     tmp.children_with_tokens().collect()
 }
 
-/// The tokens of a version: `IDENT`, or `IDENT COLON IDENT` when it has an epoch (what the lexer
-/// makes of the same text).
+/// The tokens of a version: `IDENT`, or `IDENT (COLON IDENT)*` when it has an epoch, one `COLON`
+/// for every ':' of the printed version: the one after the epoch and those of the upstream
+/// version (what the lexer makes of the same text).
 fn version_tokens(builder: &mut GreenNodeBuilder, version: &Version) {
     let text = version.to_string();
-    match text.split_once(':') {
-        Some((epoch, rest)) if version.epoch.is_some() => {
-            builder.token(IDENT.into(), epoch);
-            builder.token(COLON.into(), ":");
-            builder.token(IDENT.into(), rest);
+    if version.epoch.is_some() {
+        for (i, part) in text.split(':').enumerate() {
+            if i > 0 {
+                builder.token(COLON.into(), ":");
+            }
+            builder.token(IDENT.into(), part);
         }
-        _ => builder.token(IDENT.into(), text.as_str()),
+    } else {
+        builder.token(IDENT.into(), text.as_str());
     }
 }
 
@@ -1351,7 +1356,8 @@ impl Relation {
         let vc = vc.as_ref()?;
         let constraint = vc.children().find(|n| n.kind() == CONSTRAINT);
 
-        // The version is a single IDENT, or IDENT COLON IDENT when it has an epoch.
+        // The version is a single IDENT, or IDENT (COLON IDENT)* when it has an epoch
+        // ("1:2:3" is epoch 1, upstream version "2:3").
         let version = vc
             .children_with_tokens()
             .filter_map(|it| match it {
